@@ -7,6 +7,8 @@ import (
 	"crypto/sha1"
 	"encoding/hex"
 	"sort"
+	"strconv"
+	"strings"
 	"time"
 
 	red "github.com/go-redis/redis/v8"
@@ -286,3 +288,75 @@ var c12PipeNames = func() []string {
 }()
 
 func secs12(n int64) time.Duration { return time.Duration(n) * time.Second }
+
+// ---------------------------------------------------------------- scripted replies
+
+func c12Bulk(x string) string { return "$" + strconv.Itoa(len(x)) + "\r\n" + x + "\r\n" }
+
+func c12Arr(elems ...string) string {
+	out := "*" + strconv.Itoa(len(elems)) + "\r\n"
+	for _, e := range elems {
+		out += e
+	}
+	return out
+}
+
+const c12NilBulk, c12NilArr = "$-1\r\n", "*-1\r\n"
+
+// c12Scripted: per wrapper command the raw RESP replies both servers may be told to
+// give (all legal for that command on a real Redis).
+var c12Scripted = func() map[string][]string {
+	long := strings.Repeat("x", 100000)
+	b := c12Bulk
+	scan := []string{
+		c12Arr(b("17"), c12Arr()),                        // empty page, more to come
+		c12Arr(b("42"), c12Arr(b("k1"), b("k2"))),        // page with data, more to come
+		c12Arr(b("0"), c12Arr()),                         // empty last page
+		c12Arr(b("0"), c12Arr(b("k1"))),                  // last page
+		c12Arr(b("18446744073709551615"), c12Arr(b("x"))), // largest cursor
+		c12Arr(b("5"), c12Arr(b(long))),
+	}
+	strs := []string{c12Arr(), c12NilArr, c12Arr(b("a"), b(long)), c12Arr(b("")), c12Arr(b("b"), b("a"), b("a"))}
+	ints := []string{":0\r\n", ":1\r\n", ":2\r\n", ":-1\r\n", ":-2\r\n", ":7\r\n", ":9223372036854775807\r\n"}
+	bulk := []string{c12NilBulk, b(""), b("abc"), b(long), b("12")}
+	mixed := []string{c12Arr(b("a"), c12NilBulk, b("")), c12Arr(), c12NilArr, c12Arr(c12NilBulk), c12Arr(b(long))}
+	zs := []string{c12Arr(b("m1"), b("1.9"), b("m2"), b("-1.9")), c12Arr(), c12Arr(b("m"), b("3e2")), c12NilArr,
+		c12Arr(b("m"), b("0.5"), b(long), b("-0.5"), b("z"), b("9007199254740993"))}
+	floats := []string{b("2.9"), c12NilBulk, b("-0.5"), b("1e3"), b("0")}
+	hash := []string{c12Arr(b("f1"), b("v1"), b("f2"), b("")), c12Arr(), c12Arr(b("f"), b(long))}
+	m := map[string][]string{}
+	for _, n := range []string{"Scan", "SScan", "HScan"} {
+		m[n] = scan
+	}
+	for _, n := range []string{"LRange", "SMembers", "HKeys", "HVals", "ZRange", "ZRevRange", "Keys", "SUnion", "SDiff", "SInter"} {
+		m[n] = strs
+	}
+	for _, n := range []string{"Exists", "Del", "HDel", "SAdd", "SRem", "LLen", "HLen", "ZCard", "SCard", "PFAdd", "PFCount", "ZAdd", "ZAdds",
+		"Incr", "DecrBy", "TTL", "GetBit", "SetBit", "Persist", "HExists", "SIsMember", "LPush", "LRem", "ZRem", "ZCount", "ZRank", "HIncrBy", "BitCount", "BitPos", "SUnionStore", "ZUnionStore"} {
+		m[n] = ints
+	}
+	for _, n := range []string{"Get", "HGet", "LPop", "RPop", "LIndex", "GetSet"} {
+		m[n] = bulk
+	}
+	for _, n := range []string{"MGet", "HMGet"} {
+		m[n] = mixed
+	}
+	for _, n := range []string{"ZRangeWithScores", "ZRevRangeWithScores", "ZRangeByScoreWithScores", "ZRevRangeByScoreWithScores",
+		"ZRangeByScoreWithScoresAndLimit", "ZRevRangeByScoreWithScoresAndLimit"} {
+		m[n] = zs
+	}
+	for _, n := range []string{"ZScore", "ZIncrBy", "GeoDist"} {
+		m[n] = floats
+	}
+	m["HGetAll"] = hash
+	return m
+}()
+
+var c12ScriptedNames = func() []string {
+	var ns []string
+	for n := range c12Scripted {
+		ns = append(ns, n)
+	}
+	sort.Strings(ns)
+	return ns
+}()
